@@ -96,7 +96,7 @@ def build_real(prog, log):
             elif k == "partition":
                 n = u[0].partition(spec[1], key=None if spec[2] is None else FUNCS[spec[2]])
             elif k == "punique":
-                n = u[0].partition_unique(spec[1], key=FUNCS[spec[2]], keep=spec[3])
+                n = u[0].partition_unique(spec[1], key=0 if spec[2] == "idx0" else FUNCS[spec[2]], keep=spec[3])
             elif k == "sw":
                 n = u[0].sliding_window(spec[1], return_partial=spec[2])
             elif k == "unique":
@@ -108,7 +108,7 @@ def build_real(prog, log):
             elif k == "collect":
                 n = u[0].collect()
             elif k == "sinkf":
-                n = u[0].sink(FUNCS[spec[1]])
+                n = u[0].sink(FUNCS[spec[1]], "t", k=1) if spec[1] == "rec3" else u[0].sink(FUNCS[spec[1]])
             elif k == "union":
                 n = sc.union(*u)
             elif k == "zip":
